@@ -286,6 +286,21 @@ def builtin_method(eng, o, name):
         table = STR_METHODS
     elif isinstance(o, tuple):
         table = {"index": tuple_index, "count": tuple_count}
+    elif isinstance(o, ops.ObjDictView):
+        if name == "keys":
+            return stub(lambda eng: VList(list(o.obj.fields.keys())))
+        if name == "items":
+            return stub(lambda eng: VList([(k, v) for k, v in o.obj.fields.items()]))
+        if name == "values":
+            return stub(lambda eng: VList(list(o.obj.fields.values())))
+        if name == "get":
+            return stub(lambda eng, k, d=None: o.obj.fields.get(k, d))
+        if name == "update":
+            def upd(eng, other):
+                for k in iterate(eng, other):
+                    o.obj.fields[k] = ops.getitem(eng, other, k)
+            return stub(upd)
+        raise Unsupported("attribute %s of __dict__" % name)
     elif isinstance(o, DictView):
         raise Unsupported("attribute %s of dict view" % name)
     if table is not None and name in table:
